@@ -129,8 +129,8 @@ func TestC01(t *testing.T) {
 			}
 		}
 	}
-	r.Parallel(t, "general", r.Cfg.pick(1400, 40000), body(prioGen{Vers: allVers, Dividers: allDividers, Mode: "general"}))
-	r.Parallel(t, "v1-add-remove", r.Cfg.pick(400, 12000), body(prioGen{Vers: []string{"v1"}, Dividers: allDividers, Mode: "addrm"}))
+	r.Parallel(t, "general", r.Cfg.pick(3500, 40000), body(prioGen{Vers: allVers, Dividers: allDividers, Mode: "general"}))
+	r.Parallel(t, "v1-add-remove", r.Cfg.pick(1000, 12000), body(prioGen{Vers: []string{"v1"}, Dividers: allDividers, Mode: "addrm"}))
 	// real clock: H handler goroutines with random hold times, atomic in-flight counter
 	realBody := func(vers []string, ctl bool) func(t *testing.T, idx int, rng *rand.Rand) {
 		return func(t *testing.T, idx int, rng *rand.Rand) {
@@ -154,7 +154,7 @@ func TestC02(t *testing.T) {
 	if replayPrio(t, r) {
 		return
 	}
-	r.Parallel(t, "general", r.Cfg.pick(1800, 50000), func(t *testing.T, idx int, rng *rand.Rand) {
+	r.Parallel(t, "general", r.Cfg.pick(4000, 50000), func(t *testing.T, idx int, rng *rand.Rand) {
 		c := r.prioCase(t, genPrioScenario(rng, prioGen{Vers: allVers, Dividers: allDividers, Mode: "general"}))
 		if c.res != nil && c.res.Terminated && c.res.TermWay == "drained" && c.res.PriosWith2 >= 2 {
 			r.NonTrivial(jsonString(c.sc))
@@ -189,7 +189,7 @@ func TestC05(t *testing.T) {
 	if replayPrio(t, r) {
 		return
 	}
-	r.Parallel(t, "saturate", r.Cfg.pick(1500, 40000), func(t *testing.T, idx int, rng *rand.Rand) {
+	r.Parallel(t, "saturate", r.Cfg.pick(3500, 40000), func(t *testing.T, idx int, rng *rand.Rand) {
 		c := r.prioCase(t, genPrioScenario(rng, prioGen{Vers: allVers, Dividers: allDividers, Mode: "saturate", MaxH: 48}))
 		if c.res == nil {
 			return
@@ -214,7 +214,7 @@ func TestC06(t *testing.T) {
 	if replayPrio(t, r) {
 		return
 	}
-	r.Parallel(t, "progress", r.Cfg.pick(1500, 40000), func(t *testing.T, idx int, rng *rand.Rand) {
+	r.Parallel(t, "progress", r.Cfg.pick(4000, 40000), func(t *testing.T, idx int, rng *rand.Rand) {
 		c := r.prioCase(t, genPrioScenario(rng, prioGen{Vers: allVers, Dividers: []string{"fair", "rate", "rate"}, Mode: "progress", MaxH: 96}))
 		if c.res == nil {
 			return
@@ -242,7 +242,7 @@ func TestC07(t *testing.T) {
 	if replayPrio(t, r) {
 		return
 	}
-	r.Parallel(t, "terminate", r.Cfg.pick(1800, 50000), func(t *testing.T, idx int, rng *rand.Rand) {
+	r.Parallel(t, "terminate", r.Cfg.pick(3500, 50000), func(t *testing.T, idx int, rng *rand.Rand) {
 		c := r.prioCase(t, genPrioScenario(rng, prioGen{Vers: allVers, Dividers: allDividers, Mode: "terminate"}))
 		if c.res == nil {
 			return
